@@ -748,6 +748,12 @@ class SelectorWorld:
                 expT = Xp[:, expm]
                 if T.shape != expT.shape or not np.array_equal(T, expT):
                     V("transform_mismatch", f"transform(X) shape {T.shape} vs masked columns {expT.shape}")
+                # other data with the same columns (another row count, Fortran order)
+                rs = np.random.RandomState(len(sel) * 7919 + n_from)
+                Xn = np.asfortranarray(rs.standard_normal((3 + len(sel) % 4, n_from)))
+                Tn = np.asarray(obj.transform(Xn))
+                if Tn.shape != Xn[:, expm].shape or not np.array_equal(Tn, Xn[:, expm]):
+                    V("transform_mismatch", f"transform(other X) shape {Tn.shape} vs masked columns {Xn[:, expm].shape}", other_data=True)
             except Exception as e:  # noqa: BLE001
                 V("transform_raises", f"{type(e).__name__}: {e}")
         if rec.ret_is_self is False:
